@@ -49,7 +49,8 @@ func (g *gen) atLeast(v int32) int32 {
 
 // ---- endpoints -------------------------------------------------------------------------------------------
 
-var goodHosts = []string{"127.0.0.1", "localhost", "[::1]", "10.1.2.3", "a.example.invalid", "b.example.invalid", "user:pw@127.0.0.1", "xn--bcher-kva.invalid"}
+var goodHosts = []string{"127.0.0.1", "localhost", "[::1]", "10.1.2.3", "a.example.invalid", "b.example.invalid", "user:pw@127.0.0.1", "xn--bcher-kva.invalid",
+	"LOCALHOST", "A.Example.Invalid", "[::FFFF:7F00:1]"}
 var badHosts = []string{"", "%zz", "[::1", "a b", "h\n", "%41.invalid", "[fe80::1%25en0]", "a.example.invalid:port", "-", "::1", "[::1]x"}
 var ports = []string{"", ":6443", ":1", ":443", ":99999", ":0"}
 var badPorts = []string{":abc", ":-1", ":", ":6443:1"}
@@ -224,6 +225,31 @@ func (g *gen) validCluster() ClusterW {
 			s.Disabled = bp(false)
 		}
 		w.Servers = append(w.Servers, s)
+	}
+	if g.chance(0.25) {
+		// the same server once more: the very same string (possibly with another disabled flag), or spelled differently
+		// (trailing slash, default port, other case of the host) - for the cluster each spelling is an endpoint of its own
+		d := w.Servers[g.r.Intn(len(w.Servers))]
+		e := uh(d.Endpoint)
+		switch g.r.Intn(4) {
+		case 0:
+			if strings.HasSuffix(e, "/") {
+				e = strings.TrimSuffix(e, "/")
+			} else if strings.Count(e, "/") == 2 {
+				e += "/"
+			}
+		case 1:
+			e = scheme + "://" + strings.ToUpper(strings.TrimPrefix(e, scheme+"://"))
+		case 2:
+			if strings.Count(e, "/") == 2 && strings.Count(e, ":") == 1 && !strings.Contains(e, "[") {
+				e += map[string]string{"http": ":80", "https": ":443"}[scheme]
+			}
+		}
+		d.Endpoint = hx(e)
+		if g.chance(0.5) {
+			d.Disabled = bp(g.chance(0.5))
+		}
+		w.Servers = append(w.Servers, d)
 	}
 	w.Client = g.validClient(scheme)
 	w.Serving = g.validServing()
